@@ -71,6 +71,18 @@ package keeper
 //@   flag pure=IsOperator,GetOperatorPubKey,PublicKeyFromBytes,GetTaskInfo,GetAVSInfoByTaskAddress,GetEpochInfo,IsExistTaskResultInfo,GetTaskResultInfo,Keccak256Hash,UnmarshalTaskResponse,VerifySignature,FormatUint
 //@   before[C10.stri.self] prefix.Store).Set requires addr == old(info.OperatorAddress) && info.OperatorAddress == old(info.OperatorAddress)
 //@   ensures[C10.stri.self] err == nil ==> addr == old(info.OperatorAddress)
+// C20 (a result is accepted in phase one only during the response period, in phase two only during the statistical
+// period that follows it): every write of a task result happens inside the window of its phase, the windows being
+// computed from the task's own starting epoch, response period and statistical period (periods below 2^62, so that the
+// conversions to int64 are exact).
+//@ define striSmall(t) = t.StartingEpoch < 4611686018427387904 && t.TaskResponsePeriod < 4611686018427387904 && t.TaskStatisticalPeriod < 4611686018427387904
+//@ define striRespEnd(t) = t.StartingEpoch + t.TaskResponsePeriod
+//@   before[C20.stri.phase1] prefix.Store).Set requires striSmall(res_GetTaskInfo_0) && info.Stage == "1" ==>
+//@        res_GetEpochInfo_0.CurrentEpoch <= striRespEnd(res_GetTaskInfo_0)
+//@   before[C20.stri.phase2] prefix.Store).Set requires striSmall(res_GetTaskInfo_0) && info.Stage == "2" ==>
+//@        res_GetEpochInfo_0.CurrentEpoch > striRespEnd(res_GetTaskInfo_0) &&
+//@        res_GetEpochInfo_0.CurrentEpoch <= striRespEnd(res_GetTaskInfo_0) + res_GetTaskInfo_0.TaskStatisticalPeriod
+//@   before[C20.stri.stage] prefix.Store).Set requires info.Stage == "1" || info.Stage == "2"
 
 // ---------------------------------------------------------------------------------------------
 // C20 (epoch-end statistics of a task are computed from that task's own results): the power list stored for a task has
@@ -101,3 +113,19 @@ package keeper
 //@   flag noframe
 //@   flag pure=GetAVSInfo,GetEpochInfo,GetAVSInfoByTaskAddress,ValidateAssetIDs,ChainIDWithoutRevision,Contains,NewDecWithPrec
 //@   before[C10.uai.taskaddr] GetAVSInfoByTaskAddress requires arg_taskAddr == params.TaskAddr
+
+// ---------------------------------------------------------------------------------------------
+// C20 (statistics of a task are taken at the end of ITS statistical period): the results collected at the end of epoch
+// n of an identifier are exactly those whose AVS runs on that identifier and whose task's statistical period ends with
+// epoch n; the end of an epoch of another identifier collects nothing (periods below 2^61, conversions exact).
+//@ define gtseSmall(t) = t.StartingEpoch < 2305843009213693952 && t.TaskResponsePeriod < 2305843009213693952 && t.TaskStatisticalPeriod < 2305843009213693952
+//@ define gtseDue(t, id, n, avs) = id == avs.EpochIdentifier && n == t.StartingEpoch + t.TaskResponsePeriod + t.TaskStatisticalPeriod
+//@ func (*Keeper).GetTaskStatisticalEpochEndAVSs$1
+//@   flag pure=GetAVSInfoByTaskAddress,GetTaskInfo,FormatUint
+//@   ensures[C20.gtse.goon] !stop
+//@   ensures[C20.gtse.incl] defined(res_GetTaskInfo_0) && res_GetTaskInfo_1 == nil && res_GetTaskInfo_0 != nil && gtseSmall(res_GetTaskInfo_0) &&
+//@        gtseDue(res_GetTaskInfo_0, epochIdentifier, epochNumber, res_GetAVSInfoByTaskAddress_0) ==>
+//@        len(final_taskResList) == len(taskResList) + 1 && final_taskResList[len(taskResList)] == info
+//@   ensures[C20.gtse.excl] !(defined(res_GetTaskInfo_0) && res_GetTaskInfo_1 == nil && res_GetTaskInfo_0 != nil && gtseSmall(res_GetTaskInfo_0) &&
+//@        gtseDue(res_GetTaskInfo_0, epochIdentifier, epochNumber, res_GetAVSInfoByTaskAddress_0)) && 
+//@        (defined(res_GetTaskInfo_0) && res_GetTaskInfo_0 != nil ==> gtseSmall(res_GetTaskInfo_0)) ==> final_taskResList == taskResList
